@@ -184,7 +184,7 @@ def lazy_case(draw):
     "stencil_eigen",
     eigen_case,
     quick=60,
-    thorough=2000,
+    thorough=500,
     tol="|L[e] - lambda e| <= 1e-5 * ||L||_inf (float32 stencil; observed <= 6e-7); coefficients 1e-14",
     rule="at least one plane wave with (p,q) != (0,0)",
     nontrivial_floor=0.5,
@@ -290,7 +290,7 @@ def _vacuum_dz(case):
     "vacuum_intensity",
     vacuum_case,
     quick=30,
-    thorough=1000,
+    thorough=250,
     tol="sum|psi|^2 preserved to 1e-4 relative per wave (observed <= 1e-6)",
     rule=">=2 slices and the wave changed by > 1e-3 of its maximum",
     nontrivial_floor=0.4,
@@ -364,7 +364,7 @@ def _lazy_setup(case):
     "lazy_eager",
     lazy_case,
     quick=22,
-    thorough=600,
+    thorough=150,
     tol="max|lazy - eager| <= 1e-6 * max|eager| (observed 0)",
     rule=">=2 slices",
     nontrivial_floor=0.4,
